@@ -79,12 +79,22 @@ func checkSem(c *core.Ctx, sp semProp) error {
 	sh := NewShrinker(c, bin, o, "SemTrace", sp.obsKind)
 	sh.Seed(r)
 	var mine []Bad
+	ndrift := 0
 	for _, b := range r.Val.Bad {
 		if b.K == "case" {
 			return fmt.Errorf("observation file rejected: %s (%s)", b.Law, b.ID)
 		}
 		if strings.Contains(b.Law, "does not belong to the current case") {
 			return fmt.Errorf("observation file malformed: %s (%s line %d)", b.Law, b.ID, b.L)
+		}
+		if strings.HasPrefix(b.Law, "DRIFT") {
+			if b.K == sp.obsKind {
+				ndrift++
+				if ndrift <= 3 {
+					c.Drift(fmt.Sprintf("%s %s: %s; e.g. pool[%d] vs pool[%d], differing in %v", b.ID, r.ByID[b.ID].T.String(), b.Law, b.I, b.J, b.Diff))
+				}
+			}
+			continue
 		}
 		if b.K == sp.obsKind {
 			mine = append(mine, b)
@@ -127,6 +137,7 @@ func checkSem(c *core.Ctx, sp semProp) error {
 	c.Set("shrink_rounds", sh.Rounds)
 	c.Set("shrink_candidates_run", sh.Ran)
 	c.Set("rejected_observation_classes", len(mine))
+	c.Set("observation_drift_classes", ndrift)
 	c.Set("exhaustive", u.Exhaustive)
 	c.Set("phase_seconds", r.Times)
 	c.Set("rule", "evaluations = executions of real generated derive"+sp.fn+"/deriveEqual functions on (type, pool[i], pool[j]); "+
